@@ -63,7 +63,8 @@ def routing_case(draw):
         restr = [[draw(st.integers(0, ns - 1)), draw(st.integers(0, ne - 1))]
                  for _ in range(draw(st.integers(2, 10)))]
     pair.update({"restr": restr, "ignore_h": draw(st.integers(0, 3)) > 0,
-                 "deform": draw(ac.deformation_types(min(ns, ne)))})
+                 "deform": draw(ac.deformation_types(min(ns, ne))),
+                 "guess": len(pair["start"]["residues"]) > 1 and draw(st.booleans())})
     return pair
 
 
@@ -73,9 +74,20 @@ def check_routing(case):
     ns, ne = len(start), len(end)
     restr = [tuple(r) for r in case["restr"]]
     ali = lib("alignment", Alignment, start, end)
+    if case.get("guess"):
+        # no restraints given + several residues: the guessed restraints (validated by the 'protein'
+        # sub-check) are the ones that must reach the optimiser, through the same swap / filter rules
+        restr = [(int(i), int(j)) for i, j in lib("guess", guess_protein_restrains, ali.start, ali.end)]
+        sizes_s = [len(r[2]) for r in sspec["residues"]]
+        sizes_e = [len(r[2]) for r in espec["residues"]]
+        o1 = o2 = 0
+        for a, b in zip(sizes_s, sizes_e):
+            validate_pairs([(i, j) for i, j in restr if o1 <= i < o1 + a], a, b, o1, o2, "guessed restraints")
+            o1 += a
+            o2 += b
     with Recorder() as rec:
-        lib("align", ali.align_molecules, list(restr), None if case["deform"] is None else tuple(case["deform"]),
-            case["ignore_h"], False)
+        lib("align", ali.align_molecules, None if case.get("guess") else list(restr),
+            None if case["deform"] is None else tuple(case["deform"]), case["ignore_h"], True)
     if ne == 1:
         if rec.calls:
             raise PropertyViolation("single-atom-end", "optimiser called for a single-atom end molecule")
@@ -122,7 +134,7 @@ def check_routing(case):
     return {"nontrivial": nt,
             "classes": ["swap" if swap else "noswap", "filter" if case["ignore_h"] else "nofilter",
                         "dropped" if dropped else "none-dropped", "restr:%s" % ("0" if not restr else "1+"),
-                        "relation:" + case["relation"]],
+                        "relation:" + case["relation"], "guessed" if case.get("guess") else "given"],
             "sample": {"n_start": ns, "n_end": ne, "restr": case["restr"], "ignore_h": case["ignore_h"],
                        "fixed_names": fixed_names[:10], "received": call["restr"]}}
 
